@@ -1027,7 +1027,7 @@ func (c *Ctx) checkGoroutines() {
 						if e.Kind == EvCall && e.callName() == "(*sync.WaitGroup).Done" {
 							done++
 						}
-						if e.Kind == EvBranch && e.Cond.Kind == KBin && e.Cond.Op == token.NEQ && e.Cond.Args[1].isNilConst() && !e.Taken {
+						if e.Kind == EvBranch && e.Cond.Kind == KBin && e.Cond.Args[1].isNilConst() && ((e.Cond.Op == token.NEQ && !e.Taken) || (e.Cond.Op == token.EQL && e.Taken)) {
 							nilWG = true
 						}
 					}
@@ -1078,27 +1078,40 @@ func (c *Ctx) checkGoroutines() {
 			for _, e := range t.Events {
 				if e.Kind == EvGo && e.Gen {
 					seen = true
-					idx := e.Args[len(e.Args)-1]
-					for idx.Kind == KConv {
-						idx = idx.Args[0]
-					}
-					// the loop variable itself, or (range loops) the incremented variable that was just tested against the bound
-					isLoopVar := idx.Kind == KFresh && idx.Name == "loop"
-					if !isLoopVar {
-						for _, b := range t.Events {
-							if b.Kind == EvBranch && b.Gen && b.Taken && b.Cond.Kind == KBin && b.Cond.Op == token.LSS {
-								x := b.Cond.Args[0]
-								for x.Kind == KConv {
-									x = x.Args[0]
-								}
-								if x.Key() == idx.Key() && idx.mentions2("loop") {
-									isLoopVar = true
+					// one of the arguments is the lane index: the loop variable itself, or (range loops) the incremented
+					// variable that was just tested against the bound; a queue handed over beside it (popLoop(i, mq)) is
+					// the element of qs at that same index
+					var laneIdx *Sym
+					for _, idx := range e.Args[1:] {
+						for idx.Kind == KConv {
+							idx = idx.Args[0]
+						}
+						isLoopVar := idx.Kind == KFresh && idx.Name == "loop"
+						if !isLoopVar {
+							for _, b := range t.Events {
+								if b.Kind == EvBranch && b.Gen && b.Taken && b.Cond.Kind == KBin && b.Cond.Op == token.LSS {
+									x := b.Cond.Args[0]
+									for x.Kind == KConv {
+										x = x.Args[0]
+									}
+									if x.Key() == idx.Key() && idx.mentions2("loop") {
+										isLoopVar = true
+									}
 								}
 							}
 						}
+						if isLoopVar {
+							laneIdx = idx
+						}
 					}
-					if !isLoopVar {
+					if laneIdx == nil {
 						ok = false
+					} else {
+						for _, a := range e.Args[1:] {
+							if strings.Contains(a.Key(), ".qs") && !strings.Contains(a.Key(), laneIdx.Key()) {
+								ok = false
+							}
+						}
 					}
 				}
 				if e.Kind == EvBranch && e.Gen && e.Cond.Kind == KBin && e.Cond.Op == token.LSS {
